@@ -658,6 +658,17 @@ def corpus():
         out += cases_for_scale(rng, parse_scale(ins))
     out += perm_cases(parse_scale("0:1/16,5:1/8,5:1/4,-3:1/2"))
     out += degenerate_cases()
+    # rounding of the scaled thresholds, pinned: (f + eps) * t pushes an exact binary tie up when fl(f + eps) > f
+    # (1 * 1/8 -> .13 at 2 decimals, 98 * 1/8 = 12.25 -> 12.3 at 1), numpy rounds it half to even when f >= 2
+    # (17/8 * 1 = 2.125 -> 2.12); off-lattice non-ties (9/8 * 100 = 112.5 -> 112 at 0; 3/8 * 3 = 1.125 -> 1.1)
+    for fac, d, ins, bs in [("1/8", 2, "1:1/4,3:1/2,98:1", "0,1/8,1/4,3/8,1/2,49/4,99/8,25/2"),
+                            ("1/8", 1, "1:1/4,3:1/2,98:1", "0,1/8,1/4,3/8,1/2,49/4,99/8,25/2"),
+                            ("17/8", 2, "1:1/4,3:1/2", "2,17/8,9/4,51/8,13/2"),
+                            ("9/8", 0, "0:1/8,100:1/4,200:1/2", "112,449/4,225/2,113,225,226"),
+                            ("3/8", 1, "3:1/4,7:1/2", "1,9/8,5/4,5/2,21/8,11/4")]:
+        e = fr(eps_eff(F(fac)))
+        out.append(_mk("mridx", e, fac, d, ins, bs, claimed=False, tags=("round", "pinned")))
+        out.append(_mk("mrrate", e, fac, d, ins, bs, claimed=False, tags=("round", "pinned")))
     return out
 
 
